@@ -405,7 +405,7 @@ def job_complex_sequence(period, ncalls, bits, customs=None):
         (outs, cq), st = with_stats_stub(body)
         return outs, cq, st
     with volt_patches():
-        leaves = core.explore(run, pre_c, cap=200)
+        leaves = core.explore(run, pre_c, cap=4000)
     tstd = 32 / (2 * np.sqrt(2 * np.log(2)))
     conds = []
     for li, leaf in enumerate(leaves):
